@@ -45,6 +45,19 @@ var c12Universe = []string{
 	"x => x", "x => x + 1", "func(a, b) {a}", "y => y", "min", "max", "quote(1)", "quote(a + b)", "quote(1 + 1)",
 	"[x => x]", "{1: x => x}", "[quote(1)]", "[max]",
 	"1 << 62", "3", "-2", "2.5", "-1.5", `"1"`, "[0]", "[0.0]", "[-0.0]",
+	// large maps whose integer keys are further apart than 2^63, written in different orders (equal by construction, see c12SamePairs)
+	"{-5: 1, -4: 2, -3: 3, -2: 4, -1: 5, 9223372036854775807: 6}", "{9223372036854775807: 6, -1: 5, -2: 4, -3: 3, -4: 2, -5: 1}",
+	"{-9223372036854775807 - 1: 0, 1: 1, 2: 2, 3: 3, 4: 4, 5: 5}", "{5: 5, 4: 4, 3: 3, 2: 2, 1: 1, -9223372036854775807 - 1: 0}",
+	"{-7000000000000000000: 1, -6000000000000000000: 2, -5000000000000000000: 3, 1: 4, 2: 5, 5000000000000000000: 6}",
+	"{5000000000000000000: 6, 2: 5, 1: 4, -5000000000000000000: 3, -6000000000000000000: 2, -7000000000000000000: 1}",
+}
+
+// c12SamePairs are universe entries that denote the same value written differently: they must be Equals and order-equivalent.
+var c12SamePairs = [][2]string{
+	{"{-5: 1, -4: 2, -3: 3, -2: 4, -1: 5, 9223372036854775807: 6}", "{9223372036854775807: 6, -1: 5, -2: 4, -3: 3, -4: 2, -5: 1}"},
+	{"{-9223372036854775807 - 1: 0, 1: 1, 2: 2, 3: 3, 4: 4, 5: 5}", "{5: 5, 4: 4, 3: 3, 2: 2, 1: 1, -9223372036854775807 - 1: 0}"},
+	{"{-7000000000000000000: 1, -6000000000000000000: 2, -5000000000000000000: 3, 1: 4, 2: 5, 5000000000000000000: 6}", "{5000000000000000000: 6, 2: 5, 1: 4, -5000000000000000000: 3, -6000000000000000000: 2, -7000000000000000000: 1}"},
+	{`{"a": 1, "b": 2}`, `{"b": 2, "a": 1}`},
 }
 
 type c12Case struct {
@@ -140,6 +153,24 @@ func (p c12) RunBatch(c *fw.Ctx) {
 		}
 	}
 	if c.Batch == 0 {
+		// the same value written differently
+		index := map[string]int{}
+		for i, u := range U {
+			index[u] = i
+		}
+		for _, pr := range c12SamePairs {
+			i, oki := index[pr[0]]
+			j, okj := index[pr[1]]
+			if !oki || !okj {
+				continue
+			}
+			c.Eval(1)
+			if eq, pm := safeEq(vals[i], vals[j]); pm == "" && !eq {
+				viol("same-value-not-equal", i, j, -1, "two spellings of one value are not Equals: "+vals[i].Inspect()+" vs "+vals[j].Inspect())
+			} else if cmp[i][j] != 0 && cmp[i][j] != 99 {
+				viol("same-value-not-equal", i, j, -1, fmt.Sprintf("two spellings of one value: Cmp=%d", cmp[i][j]))
+			}
+		}
 		for i := 0; i < n; i++ {
 			c.Eval(1)
 			if cmp[i][i] != 0 && cmp[i][i] != 99 {
